@@ -414,3 +414,50 @@ func VerifC17FromImage(kind, w, h int) {
 	verifCheckView(verifView{src: NewLuminanceSourceFromImage(img), m: m}, "from image")
 	zv.Reach("c17fromimage")
 }
+
+// VerifC17YUV: a planar-YUV source over a free dw x dh luminance plane (plus chroma bytes that must
+// be ignored) restricted to the rectangle (l, t, w, h), optionally mirrored horizontally: rows and
+// matrix against the model, then every crop of that view; a rectangle outside the plane is refused
+// by the constructor.
+func VerifC17YUV(dw, dh, l, t, w, h, rev int) {
+	data := zv.Bytes(dw*dh + dw*dh/2)
+	fits := l >= 0 && t >= 0 && w >= 0 && h >= 0 && l+w <= dw && t+h <= dh
+	src, err := NewPlanarYUVLuminanceSource(append([]byte(nil), data...), dw, dh, l, t, w, h, rev != 0)
+	zv.Assert((err == nil) == fits, "the constructor accepts exactly the rectangles inside the plane")
+	if err != nil || w == 0 || h == 0 {
+		zv.Reach("c17yuv-refused")
+		return
+	}
+	// the model of the underlying plane as the source sees it (mirroring is applied inside the rectangle)
+	base := make([][]byte, dh)
+	for y := range base {
+		base[y] = append([]byte(nil), data[y*dw:(y+1)*dw]...)
+	}
+	if rev != 0 {
+		for y := t; y < t+h; y++ {
+			for x := 0; x < w; x++ {
+				base[y][l+x] = data[y*dw+l+(w-1-x)]
+			}
+		}
+	}
+	v, ok := verifCropOf(verifView{m: base, base: base}, l, t, w, h)
+	zv.Assert(ok, "model")
+	v.src = src
+	verifCheckView(v, "yuv view")
+	for cl := -1; cl <= w; cl++ {
+		for ct := -1; ct <= h; ct++ {
+			for cw := 1; cw <= w+1; cw++ {
+				for ch := 1; ch <= h+1; ch++ {
+					nv, ok := verifCropOf(v, cl, ct, cw, ch)
+					c, err := v.src.Crop(cl, ct, cw, ch)
+					zv.Assert((err == nil) == ok, "Crop must accept exactly the rectangles with a non-negative origin inside the underlying image")
+					if err == nil && ok {
+						nv.src = c
+						verifCheckView(nv, "crop of yuv view")
+					}
+				}
+			}
+		}
+	}
+	zv.Reach("c17yuv")
+}
